@@ -433,6 +433,15 @@ func (b *budget) take() bool {
 	return false
 }
 
+func (b *budget) refund() {
+	b.mu.Lock()
+	defer b.mu.Unlock()
+	b.attempts--
+	if !b.unlimited {
+		b.left++
+	}
+}
+
 func (b *budget) arm(k int) {
 	b.mu.Lock()
 	b.unlimited, b.left, b.attempts = false, k, 0
@@ -491,7 +500,11 @@ func (s crashRoundStore) SaveRoundReplayedHeader(ctx context.Context, h tmconsen
 	if !s.b.take() {
 		return nil
 	}
-	return s.RoundStore.SaveRoundReplayedHeader(ctx, h)
+	err := s.RoundStore.SaveRoundReplayedHeader(ctx, h)
+	if err != nil {
+		s.b.refund() // the store refused: nothing was written
+	}
+	return err
 }
 
 func (s crashRoundStore) OverwriteRoundPrevoteProofs(ctx context.Context, h uint64, r uint32, p tmconsensus.SparseSignatureCollection) error {
@@ -547,6 +560,10 @@ type runner struct {
 	replayIn   chan tmelink.ReplayedHeaderRequest
 	hcChans    []hcChan // HeightCommitted channels handed to the kernel, still open
 
+	hdrCoq  map[string]string // Gallina text of every header the harness built, by hash
+	hazards bool              // also generate the two inputs listed as known findings (they kill the kernel)
+
+	forceReplay int // the next replay uses this variant
 	script []string // scripted operations still to run: interleaving templates that random choice rarely lines up
 
 	io               string   // what a consumer operation received (tr), consumed by the next observe()
@@ -585,7 +602,9 @@ func (rn *runner) observe() string {
 		}
 		nv := chd.Header.NextValidatorSet
 		hdrs = append(hdrs, TL([]string{TN(h), TB(chd.Header.Hash), TB(chd.Header.PrevBlockHash),
-			TB(nv.PubKeyHash), TB(nv.VotePowerHash), rn.w.trKeys(nv), trVPows(nv), rn.w.trCProof(chd.Proof), rn.w.trConsistent(nv)}))
+			TB(nv.PubKeyHash), TB(nv.VotePowerHash), rn.w.trKeys(nv), trVPows(nv), rn.w.trCProof(chd.Proof), rn.w.trConsistent(nv),
+			TL([]string{TB(chd.Header.ValidatorSet.PubKeyHash), TB(chd.Header.ValidatorSet.VotePowerHash),
+				rn.w.trKeys(chd.Header.ValidatorSet), trVPows(chd.Header.ValidatorSet)})}))
 	}
 	keys := make([]hr, 0, len(rn.touched))
 	for k := range rn.touched {
@@ -732,7 +751,13 @@ func (rn *runner) replay(v, c *tmconsensus.VersionedRoundView) {
 	H, R := v.Height, v.Round
 	variant := 0
 	if w.r.chance(1, 2) {
-		variant = 1 + w.r.below(9)
+		variant = 1 + w.r.below(10)
+	}
+	if rn.hazards && R > 0 && w.r.chance(1, 3) {
+		variant = 11
+	}
+	if rn.forceReplay > 0 {
+		variant, rn.forceReplay = rn.forceReplay, 0
 	}
 	h := H
 	r := R
@@ -743,6 +768,20 @@ func (rn *runner) replay(v, c *tmconsensus.VersionedRoundView) {
 		r = R + 1
 	case 3:
 		r = R + 2
+	case 11: // a header committed in a round the mirror has already left
+		r = R - 1 - uint32(w.r.below(int(R)))
+	}
+	// variant 10: a header the mirror already holds as a proposed header of this height (this or an earlier round)
+	var known *tmconsensus.ProposedHeader
+	if variant == 10 {
+		var cands []tmconsensus.ProposedHeader
+		for rr := uint32(0); rr <= R; rr++ {
+			cands = append(cands, rn.knownPHs[hr{H, rr}]...)
+		}
+		if len(cands) > 0 {
+			known = &cands[w.r.below(len(cands))]
+			rn.stats["replay_of_known_header"]++
+		}
 	}
 	cur := rn.valsFor(H)
 	next, haveNext := rn.valsAt[H+1]
@@ -759,6 +798,11 @@ func (rn *runner) replay(v, c *tmconsensus.VersionedRoundView) {
 	}
 	hashOK := true
 	curHdr, nextHdr := cur, next
+	hdCoq := ""
+	if known != nil {
+		hd = known.Header
+		hdCoq = rn.hdrCoq[string(hd.Hash)]
+	}
 	switch variant {
 	case 4:
 		hd.Hash = append([]byte{}, hd.Hash...)
@@ -796,36 +840,58 @@ func (rn *runner) replay(v, c *tmconsensus.VersionedRoundView) {
 	rn.touched[hr{h, r}] = true
 	rn.touched[hr{h, R}] = true
 	rn.touched[hr{h, R + 1}] = true
-	resp := make(chan tmelink.ReplayedHeaderResponse, 1)
-	select {
-	case rn.replayIn <- tmelink.ReplayedHeaderRequest{Header: hd, Proof: proof, Resp: resp}:
-	case <-time.After(3 * time.Second):
-		panic("kernel did not take the replayed header")
+	if hdCoq == "" {
+		hdCoq = rn.coqHdr(hd, hashOK, curHdr, nextHdr)
 	}
-	var rr tmelink.ReplayedHeaderResponse
-	select {
-	case rr = <-resp:
-	case <-time.After(3 * time.Second):
-		panic("kernel did not answer the replayed header")
-	}
-	code := uint64(0)
-	if rr.Err != nil {
-		var oos tmelink.ReplayedHeaderOutOfSyncError
-		var val tmelink.ReplayedHeaderValidationError
-		switch {
-		case errors.As(rr.Err, &oos):
-			code = 1
-		case errors.As(rr.Err, &val):
-			code = 2
-		default:
-			code = 3
+	opCoq := fmt.Sprintf("(OpReplay %s %s)", hdCoq, w.coqCProof(proof))
+	var deliver func() uint64
+	deliver = func() uint64 {
+		if rn.pendingCrash >= 0 {
+			// the driver offers the header again after the restart
+			rn.redo = func() {
+				if v2, _ := rn.views(); !rn.hazards && v2.Height == h && r < v2.Round {
+					// the restart moved the mirror past the replayed round: offering the header again is the
+					// known finding "replay for an earlier round" (generated only with -hazards)
+					rn.stats["redelivery_skipped_earlier_round"]++
+					return
+				}
+				rn.stats["redelivered_replay"]++
+				rn.emit(opCoq, deliver())
+			}
 		}
-	} else {
-		rn.valsAt[h+1] = next
+		resp := make(chan tmelink.ReplayedHeaderResponse, 1)
+		select {
+		case rn.replayIn <- tmelink.ReplayedHeaderRequest{Header: hd, Proof: proof, Resp: resp}:
+		case <-time.After(3 * time.Second):
+			panic("kernel did not take the replayed header")
+		}
+		var rr tmelink.ReplayedHeaderResponse
+		select {
+		case rr = <-resp:
+		case <-time.After(3 * time.Second):
+			panic("kernel did not answer the replayed header")
+		}
+		code := uint64(0)
+		if rr.Err != nil {
+			var oos tmelink.ReplayedHeaderOutOfSyncError
+			var val tmelink.ReplayedHeaderValidationError
+			switch {
+			case errors.As(rr.Err, &oos):
+				code = 1
+			case errors.As(rr.Err, &val):
+				code = 2
+			default:
+				code = 3
+			}
+		} else {
+			rn.valsAt[h+1] = next
+		}
+		rn.stats[fmt.Sprintf("replay_res_%d", code)]++
+		return code
 	}
+	code := deliver()
 	rn.stats[fmt.Sprintf("replay_variant_%d", variant)]++
-	rn.stats[fmt.Sprintf("replay_res_%d", code)]++
-	rn.emit(fmt.Sprintf("(OpReplay %s %s)", rn.coqHdr(hd, hashOK, curHdr, nextHdr), w.coqCProof(proof)), code)
+	rn.emit(opCoq, code)
 	if code == 2 && h == H && w.r.chance(1, 2) {
 		// the replay was refused: the same precommits arriving as ordinary gossip must not commit it either
 		rn.stats["replay_refused_then_gossip"]++
@@ -1128,7 +1194,11 @@ func (rn *runner) step() {
 		}
 		rn.script = nil
 	} else if rn.pendingCrash < 0 && w.r.chance(1, 25) {
-		switch y := w.r.below(3); {
+		switch y := w.r.below(4); {
+		case y == 3 && replayMode:
+			// a proposal is seen, the round is skipped, and the header comes back as a replayed header
+			rn.stats["script_replay_of_seen_proposal"]++
+			rn.script = []string{"propose", "nextround-all", "replay-known"}
 		case y == 0 && rn.consumers && rn.entered && rn.lastEnterH == v.Height && rn.lastEnterR == v.Round:
 			// the mirror jumps a round while the state machine is not reading; the state machine enters
 			// that round by itself and only then reads
@@ -1161,6 +1231,9 @@ func (rn *runner) step() {
 			if rn.entered && rn.lastEnterH == v.Height && rn.lastEnterR < v.Round && w.r.chance(2, 3) {
 				eh, er = v.Height, v.Round
 			}
+			if rn.hazards && v.Round > 0 && w.r.chance(1, 2) {
+				eh, er = v.Height, v.Round-1 // a slow state machine enters a round the mirror has already left
+			}
 			if eh > rn.lastEnterH || (eh == rn.lastEnterH && er > rn.lastEnterR) || !rn.entered {
 				rn.entered, rn.lastEnterH, rn.lastEnterR = true, eh, er
 				rn.doEnter(eh, er)
@@ -1174,7 +1247,7 @@ func (rn *runner) step() {
 			return
 		}
 	}
-	if replayMode && rn.pendingCrash < 0 && w.r.chance(1, 9) {
+	if replayMode && w.r.chance(1, 9) {
 		rn.replay(&v, &c)
 		return
 	}
@@ -1266,7 +1339,7 @@ func (rn *runner) step() {
 		// the future path has no key-id filter: keep key ids well formed there (flaw kinds 0-4 only)
 		rn.doVotes(kind, h, r, string(vs.vs.PubKeyHash), []voteEntry{{t, rn.mkSigsNoKid(vs, kind, h, r, t, rn.randSubset(nn, 1), 10)}})
 	default: // odd proposals
-		rn.proposal(&v, &c, H, R, 1+w.r.below(11))
+		rn.proposal(&v, &c, H, R, 1+w.r.below(12))
 	}
 }
 
@@ -1298,6 +1371,9 @@ func (rn *runner) scripted(op string, v, c *tmconsensus.VersionedRoundView) bool
 		rn.doVotes(kindPrecommit, H, R, pkh, []voteEntry{{target, rn.mkSigs(cur, kindPrecommit, H, R, target, allIdx(n), 0)}})
 	case "propose":
 		rn.proposal(v, c, H, R, 0)
+	case "replay-known":
+		rn.forceReplay = 10
+		rn.replay(v, c)
 	case "smread":
 		rn.doSMRead()
 	case "gread":
@@ -1472,6 +1548,16 @@ func (rn *runner) proposal(v, c *tmconsensus.VersionedRoundView, H uint64, R uin
 		hash, _ := w.hs.Block(hd)
 		hd.Hash = hash
 	}
+	if variant == 12 {
+		// a well-formed header that names ANOTHER validator set as its own (lists and hashes consistent, block hash
+		// recomputed): everything a peer can check locally holds, only the comparison with the node's own set fails
+		other := w.randValset()
+		curHdr = other
+		hd.ValidatorSet = other.vs
+		hash, _ := w.hs.Block(hd)
+		hd.Hash = hash
+		rn.stats["ph_names_other_valset"]++
+	}
 	hashOK := true
 	if variant == 1 {
 		hd.Hash = append([]byte{}, hd.Hash...)
@@ -1521,6 +1607,7 @@ func (rn *runner) proposal(v, c *tmconsensus.VersionedRoundView, H uint64, R uin
 		keyCoq = "None"
 	}
 	coq := fmt.Sprintf("(mk_ph %s %d %s %s %s)", rn.coqHdr(hd, hashOK, curHdr, nextHdr), r, keyCoq, w.desc(sig), coqBytes(content))
+	rn.hdrCoq[string(hd.Hash)] = rn.coqHdr(hd, hashOK, curHdr, nextHdr)
 	if variant == 0 && w.r.chance(1, 5) {
 		// a relayed copy with a different next validator set and a correctly recomputed block hash:
 		// the proposer's signature does not cover either, so it still verifies (C15)
@@ -1531,6 +1618,7 @@ func (rn *runner) proposal(v, c *tmconsensus.VersionedRoundView, H uint64, R uin
 		hd2.Hash = hash2
 		ph2 := tmconsensus.ProposedHeader{Header: hd2, Round: r, Signature: sig, ProposerPubKey: ph.ProposerPubKey}
 		coq2 := fmt.Sprintf("(mk_ph %s %d %s %s %s)", rn.coqHdr(hd2, true, curHdr, alt), r, keyCoq, w.desc(sig), coqBytes(content))
+		rn.hdrCoq[string(hd2.Hash)] = rn.coqHdr(hd2, true, curHdr, alt)
 		rn.stats["ph_rehashed_copy"]++
 		if w.r.chance(1, 2) {
 			rn.doPH(ph2, coq2) // forged copy first
@@ -1567,7 +1655,7 @@ func (rn *runner) proposal(v, c *tmconsensus.VersionedRoundView, H uint64, R uin
 	}
 }
 
-var crashMode, consumerMode, replayMode bool
+var crashMode, consumerMode, replayMode, hazardMode bool
 
 func runCase(idx int, seed uint64, nOps int, out io.Writer, stats map[string]int) {
 	ctx, cancel := context.WithCancel(context.Background())
@@ -1596,7 +1684,7 @@ func runCase(idx int, seed uint64, nOps int, out io.Writer, stats map[string]int
 
 		AssertEnv: gasserttest.DefaultEnv(),
 	}
-	rn := &runner{w: w, cfg: cfg, initH: initH, genesis: genesis, cancel: cancel, bud: bud, pendingCrash: -1, crashes: crashMode, consumers: consumerMode,
+	rn := &runner{w: w, cfg: cfg, initH: initH, genesis: genesis, cancel: cancel, bud: bud, pendingCrash: -1, crashes: crashMode, consumers: consumerMode, hazards: hazardMode, hdrCoq: map[string]string{},
 		touched: map[hr]bool{}, out: out, valsAt: map[uint64]valset{}, knownPHs: map[hr][]tmconsensus.ProposedHeader{}, stats: stats}
 	rn.startMirror()
 	internTab = map[string]string{}
@@ -1635,6 +1723,7 @@ func main() {
 	ops := flag.Int("ops", 25, "operations per case")
 	flag.BoolVar(&crashMode, "crashes", false, "inject crashes (write budgets) and restarts")
 	flag.BoolVar(&consumerMode, "consumers", false, "act as state machine and gossip reader")
+	flag.BoolVar(&hazardMode, "hazards", false, "also generate the inputs recorded as known findings (they kill the kernel)")
 	flag.BoolVar(&replayMode, "replay", false, "feed replayed headers (mirror catch-up)")
 	flag.Parse()
 	out := os.Stdout
